@@ -179,8 +179,12 @@ def points(ctx, lim):
                 captured = {}
 
                 def on_call(fn, args, kwargs, node, fr, obj=obj):
-                    from ..absint import BoundMethod
-                    if isinstance(fn, BoundMethod) and getattr(fn.func, 'name', '') == '_extrapolate':
+                    # the hand-over to the extrapolation stage, recognised by what is handed over (the sequence of function
+                    # values as a table, the steps, the shape of the point) and not by the name of the method
+                    from ..absint import BoundMethod, Closure
+                    if isinstance(fn, (BoundMethod, Closure)) and len(args) == 3 and not kwargs and isinstance(args[0], Arr) \
+                            and isinstance(args[1], Arr) and isinstance(args[2], tuple) \
+                            and any(isinstance(v, FV) for v in args[0].items()):
                         captured['results'] = args
                         return ((Poly.sym('LIMIT'), 'INFO'),)
                     return None
